@@ -15,7 +15,7 @@ func VerifStopTimers(rp *ResourcePool) {
 	}
 }
 
-func VerifCloseIdle(rp *ResourcePool) { rp.closeIdleResources() }
-func VerifScaleIn(rp *ResourcePool)   { rp.scaleInResources() }
-func VerifChanLen(rp *ResourcePool) int { return len(rp.resources) }
+func VerifCloseIdle(rp *ResourcePool)     { rp.closeIdleResources() }
+func VerifScaleIn(rp *ResourcePool)       { rp.scaleInResources() }
+func VerifChanLen(rp *ResourcePool) int   { return len(rp.resources) }
 func VerifBaseCap(rp *ResourcePool) int64 { return rp.baseCapacity.Get() }
